@@ -1,20 +1,24 @@
 (* val-level entry points of the family "session" (C16).
 
-   input  : (n0 shape (msg ...) (call ...) script)
-              Upgrade on a recording, fault-injecting ResponseWriter of that shape, then the
-              calls on the Session
+   input  : (n0 shape (msg ...) (call ...) script presetopt)
+              Upgrade on a recording, fault-injecting ResponseWriter of that shape (on which
+              user code has put the preset Content-Type beforehand), then the calls on the Session
             (n1 shape (x<Last-Event-Id value> ...) onsopt (msg ...) (call ...) perropt script)
               one request through Server.ServeHTTP with a recording Provider that makes the
               calls on the subscription's client and returns nil / an error with that text
-            (n2 (msg ...) (call ...))
-              the same through a real net/http server and client on the loopback interface;
-              observed (n<status> x<Content-Type> x<body> (n<returned> ...))
+            (n2 (msg ...) (call ...) presetopt)
+              the same through a real net/http server and client on the loopback interface
+              (the preset is OnSession's); observed (n<status> x<Content-Type> x<body> (n<returned> ...))
      shape   = (n<FlushError?> n<Flush?> unwrapopt)     unwrapopt = () | (shape)
      msg     = (idopt typeopt z<retry ns> ((n<comment?> x<text>) ...))
      call    = (n0 n<msg index>) Send | (n1) Flush
      script  = (verdict ...), one per Write/Flush of the writer: () ok | (n<k> n<e>) fail
-     onsopt  = () | (((x<topic> ...) n<ok> statusopt))
-     perropt = () | (x<text>)
+     onsopt  = () | (((x<topic> ...) n<ok> statusopt n<empty-non-nil topics?> presetopt))
+     presetopt = () | ((x<Content-Type value> ...))   assigned to Header()["Content-Type"] before
+                                       the session's first Send/Flush
+     perropt = () | (x<text> n<kind> x<prefix>)   text = err.Error(); kind/prefix: which error value
+                                       the harness builds (sentinels, wraps - see session.go); the
+                                       server answers with the text whatever the error is
    output : (n1)                                        kind 0, Upgrade refused
             (n0 (n<returned> (entry ...)) ...)          kind 0, per call
             (subopt ((n<returned> (entry ...)) ...) (entry ...) (entry ...))
@@ -55,6 +59,27 @@ Definition dec_ons (v : val) : option on_session :=
   match v with
   | VL (o :: _) => Some (mkons (map as_b (as_l (nth_val 0 o))) (as_bool (nth_val 1 o)) (as_opt as_n (nth_val 2 o)))
   | _ => None
+  end.
+
+(* A Content-Type already on the response before the session's first Send/Flush (presetopt):
+   user code assigned Header()["Content-Type"] = values.  For the session it changes NOTHING -
+   doUpgrade assigns the header whatever is there (session.go:68), which is why [run_calls] has
+   no such input; what OnSession assigned shows up in ITS OWN log, as the values joined by ","
+   (how the recorder reports a header). *)
+Fixpoint join_comma (l : list bytes) : bytes :=
+  match l with
+  | [] => []
+  | [x] => x
+  | x :: r => x ++ [44%N] ++ join_comma r
+  end.
+Definition ons_preset_log (onsopt : val) : list wcall :=
+  match onsopt with
+  | VL (o :: _) =>
+      match nth_val 4 o with
+      | VL (p :: _) => [LHeaderSet header_content_type (join_comma (map as_b (as_l p)))]
+      | _ => []
+      end
+  | _ => []
   end.
 
 (* ---- encoding ------------------------------------------------------------------ *)
@@ -100,9 +125,11 @@ Definition run_session (i : val) : val :=
       let perr := as_opt as_b (nth_val 6 i) in
       let script := map dec_verdict (as_l (nth_val 7 i)) in
       let r := serve_http w h ons calls perr script in
+      (* OnSession's own header assignment (it runs only when the request was upgraded) *)
+      let pre := match upgrade w h with Some _ => ons_preset_log (nth_val 3 i) | None => [] end in
       VL [vopt (fun s : list bytes * field => VL [VL (map VB (fst s)); vopt VB (snd s)]) (sv_sub r);
           VL (map enc_cres (sv_results r) ++ (if sv_ok r then [] else [vpanic_s]));
-          VL (map enc_wcall (sv_user r));
+          VL (map enc_wcall (pre ++ sv_user r));
           VL (map enc_wcall (sv_server r))]
   end.
 
